@@ -217,6 +217,17 @@ def run_history(ctx, history, label, lite=None, nmax=12):
                     c.execute('SELECT k, s FROM t WHERE k < ? ORDER BY k', (size,))
                     c.arraysize = mc.arraysize
                     sq[cid] = c
+            elif kind in ('execfail', 'execreject'):
+                # an execute that is refused at compile time, or that raises part-way through the evaluation of its rows:
+                # the cursor keeps the state of its last successful execute (rows not yet fetched, rownumber, rowcount, description)
+                text = {'execreject': ['SELECT nosuch FROM #t', 'SELECT k FROM #nosuch', 'SELECT k, FROM #t', 'SELECT sum(k), s FROM #t GROUP BY 3'],
+                        'execfail': ['SELECT k, date_add(2020-01-01, 10000000 * k) AS d FROM #t', 'SELECT k FROM #t WHERE str(k) ~ "("',
+                                     'SELECT s, splitcomp(s, "s", k) AS x FROM #t']}[kind][op[2]]
+                try:
+                    cur.execute(text)
+                    problems.append(f'{where}: {text!r} was expected to fail and did not (harness)')
+                except Exception:  # noqa: BLE001
+                    pass
             elif kind == 'execmany':
                 # executemany(statement, parameter sets): a new execution for every set; the cursor ends up holding the last one
                 sizes = list(op[2])
@@ -363,8 +374,10 @@ def run(ctx):
                     hist.append(('cexec', cid, rng.choice(sizes)))
             elif r < 0.22:
                 hist.append(('exec', cid, rng.choice(sizes)))
-            elif r < 0.25:
+            elif r < 0.24:
                 hist.append(('execmany', cid, [rng.choice(sizes) for _ in range(rng.choice([1, 2, 3]))]))
+            elif r < 0.27:
+                hist.append(rng.choice([('execfail', cid, rng.randrange(3)), ('execreject', cid, rng.randrange(4))]))
             elif r < 0.45:
                 hist.append(('one', cid))
             elif r < 0.65:
